@@ -555,4 +555,9 @@ EXPLANATION = (
     'flush mark as decision tables over boundary values with folded constants. Not decided: the contract over all datagram x cache '
     'value combinations [X] -- the rules decide the code-shape clauses that make it hold for every datagram.'
 )
+EXPLANATION_ADDENDUM = (
+    ' C06.ORDER / C06.SNAPSHOT recognise a listener phase inlined as a loop over the listeners and require the completion snapshot to be taken after the first phase; C06.FLOORFLUSH also decides the flush-set table over (cache-flush bit, TTL 0) and that the floor precedes every use of the record.'
+)
+EXPLANATION = EXPLANATION + EXPLANATION_ADDENDUM
+
 RULES = [order, snapshot, dedup, floorflush]
